@@ -163,6 +163,23 @@ Additions for nextflow/scripts/batchie.py (the orchestration script):
                       types (not the one of cfg["vars"]) rebinds x at that type (`screen_metadata = screen_metadata[0]`: the list
                       of matches becomes its first element); later reads see the new type.  Inside a loop or an `if` that
                       carries x the state tuple keeps the old type, so the generated term is ill-typed (fail closed).
+Additions for the randomised steps (scoring/rand.py, the hold-out splits, the DBAL sub-sampling; C18):
+  cfg["monad"]        with type="rprog" (Model/RandProg.v) a function denotes a resumption program: every `!` template is bound
+                      with the monad's bind, so a primitive whose template contains a request (`rng.random()` -> `!rp_random`)
+                      puts that request into the program at the place where Python evaluates the call.  A raise needs a
+                      template tag (`rp_raise 5`), not an integer.  Any call that is not a declared primitive - a module-level
+                      numpy.random function, default_rng(), passing `rng` on - is refused like every other undeclared call.
+  cfg["effectful_dictcomp"]  True: `{k(x): v(x) for x in L}` whose key / value may raise or draw is the monad's fold over L of
+                      `d[k] = v` (dict_set), the key evaluated before the value (CPython >= 3.8), element by element from the left
+  cfg["int_truthiness"]      True: the truth value of a plain int (declared Z) is `negb (x =? 0)` (`if not n:`)
+  cfg["assign_effects"]      a template starting with `!` denotes a `result state`: the assignment may raise (an IndexError of
+                      `a[idx] = True`)
+  cfg["stmt_prims"]          a template starting with `!` denotes a `result T`: the statement run may raise
+  cfg["outside_names"]       (with cfg["body_slice"]) the identifiers the statements OUTSIDE the translated run may mention (bare
+                      names; attribute names with a leading dot).  Those statements are still not translated, but a name that is
+                      not listed - the generator argument, `.random`, `default_rng`, a new helper, an import - is refused
+  cfg["typed_loop_vars"]     True: a `for` loop's variable is bound with its declared type (`let x : T := it in`), for bodies
+                      from which Coq cannot infer the element type
 """
 import ast
 
@@ -360,6 +377,10 @@ class Tr:
                 if kw.arg is not None:
                     a, at = self.expr(kw.value, env, hoist)
                     args[kw.arg] = self.need(a, at, argtys[kw.arg], hoist) if kw.arg in argtys else a
+            if tmpl.startswith("!"):     # a statement run that may raise: the template denotes a `result T`
+                n = self.new("r")
+                hoist.append((n, tmpl[1:].format(**args)))
+                return n, ty
             return "(" + tmpl.format(**args) + ")", ty
         if isinstance(e, ast.Call) and isinstance(e.func, ast.Name) and e.func.id in self.kwcalls:
             return self.kwcall(e, env, hoist)
@@ -408,6 +429,14 @@ class Tr:
             kk, kt = self.expr(e.key, env2, inner)
             kk = self.need(kk, kt, ("Z",), inner)
             vv, vt = self.expr(e.value, env2, inner)
+            if inner and self.cfg.get("effectful_dictcomp"):
+                # a key / value that may raise (or draw): element by element from the left, the key before the value,
+                # through the monad's fold; the first exception aborts
+                d, n = self.new("d"), self.new("dc")
+                body = "".join("%s %s <- %s; " % (self.M["bind"], a, t) for a, t in inner) \
+                    + "%s (dict_set %s %s %s)" % (self.M["ok"], d, kk, vv)
+                hoist.append((n, "%s (fun %s %s => %s) %s []" % (self.M["fold"], d, g.target.id, body, l)))
+                return n, ("dictof", vt)
             if inner:
                 raise Unsupported("dict comprehension key / value that may raise: " + ast.unparse(e))
             d = self.new("d")
@@ -622,6 +651,8 @@ class Tr:
             return "(is_some %s)" % v
         if t == ("Z",):     # truth value of an int: it is not zero (`if not len(d)`, `if not n`)
             return "(negb (%s =? 0))" % v
+        if t == ("Z",) and self.cfg.get("int_truthiness"):
+            return "(negb (%s =? 0))" % v      # a plain int is true iff it is not 0
         raise Unsupported("truth value of a %s: %s" % (t, ast.unparse(e)))
 
     def compare(self, le, op, re, env, hoist):
@@ -856,6 +887,9 @@ class Tr:
                     args["state"] = var
                     if tmpl.startswith("!"):   # an assignment effect that may raise: the template denotes a `result state`
                         return self.bind_hoist(hoist, "%s%s %s <- %s;\n" % (ind, self.M["bind"], var, tmpl[1:].format(**args)), ind) + self.block(rest, env, k, ind)
+                    if tmpl.startswith("!"):     # an assignment effect that may raise: the template denotes a `result state`
+                        return self.bind_hoist(hoist, "%s%s %s <- %s;\n" % (ind, self.M["bind"], var, tmpl[1:].format(**args)), ind) \
+                            + self.block(rest, env, k, ind)
                     return self.bind_hoist(hoist, "%slet %s := %s in\n" % (ind, var, tmpl.format(**args)), ind) + self.block(rest, env, k, ind)
             if len(st.targets) != 1:
                 raise Unsupported("multiple assignment: " + ast.unparse(st))
@@ -989,6 +1023,8 @@ class Tr:
             if self.field_append(c) is not None:
                 x, attr, arg = self.field_append(c)
                 return self.field_store(x, attr, arg, True, env, hoist, rest, k, ind)
+            if not (isinstance(c, ast.Call) and isinstance(c.func, ast.Attribute) and isinstance(c.func.value, ast.Name)):
+                raise Unsupported("expression statement: " + ast.unparse(st)[:80])     # e.g. np.random.seed(0), f(x)
             n = c.func.value.id
             if n not in env or len(c.args) != 1 or c.keywords:
                 raise Unsupported("method call: " + ast.unparse(st))
@@ -1349,6 +1385,9 @@ class Tr:
         for n, t, tv in zip(tnames, elt, tvars):
             if n != "_":
                 env_body[n] = t
+                if self.cfg.get("typed_loop_vars"):     # the loop variable with its declared type (Coq cannot always infer it)
+                    pre += "%s    let %s : %s := %s in\n" % (ind, n, coq_type(t), tv)
+                    continue
                 pre += "%s    let %s := %s in\n" % (ind, n, tv)
 
         brk = self.has_jump(st.body, (ast.Break,))     # a `break` of THIS loop: the body answers (go on?, state)
@@ -1558,6 +1597,24 @@ def slice_body(f, markers):
     return f.body[heads.index(first):heads.index(last) + 1]
 
 
+def check_outside_names(f, run, allowed):
+    """cfg["outside_names"] (with cfg["body_slice"]): the statements of f OUTSIDE the translated run are not translated,
+    but they may mention only the listed identifiers - bare names as they are, attribute names with a leading dot (`.shape`);
+    anything else (`rng`, `.random`, `default_rng`, a new helper) is refused.  The configuration TRUSTS that each listed
+    name is what it is today (e.g. numpy array functions); the point is that a NEW name cannot appear unnoticed."""
+    allowed = set(allowed)
+    for st in f.body:
+        if any(st is r for r in run):
+            continue
+        for n in ast.walk(st):
+            name = n.id if isinstance(n, ast.Name) else "." + n.attr if isinstance(n, ast.Attribute) else None
+            if name is not None and name not in allowed:
+                raise Unsupported("statement outside the translated run mentions an undeclared name %s: %s"
+                                  % (name, ast.unparse(st).split("\n")[0][:80]))
+            if isinstance(n, (ast.Import, ast.ImportFrom, ast.Global, ast.Nonlocal, ast.FunctionDef, ast.Lambda, ast.ClassDef)):
+                raise Unsupported("statement outside the translated run: " + ast.unparse(st).split("\n")[0][:80])
+
+
 def translate(source_text, cfg):
     tree = ast.parse(source_text)
     check_inherits(tree, cfg)
@@ -1572,6 +1629,8 @@ def translate(source_text, cfg):
         cfg["vars"] = dict(cfg["vars"], yielded="list " + cfg["generator"])
         cfg["predefine"] = dict(cfg.get("predefine", {}), yielded="[]")
         cfg["implicit_return"] = "{yielded}"
+    if cfg.get("body_slice") and cfg.get("outside_names") is not None:
+        check_outside_names(f, slice_body(f, cfg["body_slice"]), cfg["outside_names"])
     if cfg.get("body_slice"):
         f.body = slice_body(f, cfg["body_slice"])      # before renaming: the markers are source text
     f = AnnToAssign().visit(f)
